@@ -207,3 +207,64 @@ func TunedLeaf(rng *rand.Rand, t reflect.Type, rules string, pZero float64) refl
 	}
 	return v
 }
+
+// PerturbRules derives an override from a field's own tag rules: the same rule keys with OTHER
+// arguments (and fresh unique messages). State keyed by (field, rule key) instead of the full rule
+// text — compiled patterns, parsed bounds, parsed option lists — is exposed by exactly this pattern.
+func PerturbRules(rng *rand.Rand, tagRules string, t reflect.Type, id string) string {
+	cands := ScalarRules(rng, t)
+	var out []string
+	i := 0
+	for _, item := range splitOutsideQuotes(tagRules) {
+		if item == "" {
+			continue
+		}
+		key := item
+		if k := strings.IndexAny(key, "=|"); k >= 0 {
+			key = key[:k]
+		}
+		if key == "either" || key == "botheq" || key == "exist" || strings.HasPrefix(key, "nosuch") {
+			continue
+		}
+		// candidates with the same key but another text
+		var alt []string
+		base := item
+		if k := strings.LastIndex(base, "|"); k >= 0 && !strings.Contains(base[k:], "'") {
+			base = base[:k]
+		}
+		for _, c := range cands {
+			ck := c
+			if k := strings.IndexAny(ck, "=|"); k >= 0 {
+				ck = ck[:k]
+			}
+			if ck == key && c != base {
+				alt = append(alt, c)
+			}
+		}
+		if len(alt) == 0 {
+			continue
+		}
+		out = append(out, fmt.Sprintf("%s|m_%s_p%d", alt[rng.Intn(len(alt))], id, i))
+		i++
+	}
+	return strings.Join(out, ",")
+}
+
+func splitOutsideQuotes(s string) []string {
+	var out []string
+	cur := []byte{}
+	inQ := false
+	for i := 0; i < len(s); i++ {
+		c := s[i]
+		if c == '\'' {
+			inQ = !inQ
+		}
+		if c == ',' && !inQ {
+			out = append(out, string(cur))
+			cur = cur[:0]
+			continue
+		}
+		cur = append(cur, c)
+	}
+	return append(out, string(cur))
+}
